@@ -87,6 +87,7 @@ pub fn run(run: &Run) {
     // string literals, so multi-byte characters reach the whitespace post-processing) for terms AND
     // for the sentence / task item product
     let mut vals: Vec<V> = u::u_term(&fmts::han(), tier).into_iter().map(V::term).collect();
+    vals.extend(u::huge_terms(4097).into_iter().filter(|r| r.size() > 1000 && !(r.tag == Tag::Product && r.kids.len() == 600)).map(V::term));
     vals.extend(u::u_sent(&fmts::han()));
     vals.extend(u::float_family());
     // rendering -> (class, example)
